@@ -1,6 +1,7 @@
 import props_ring
 import props_array
 import props_resource
+import props_subject
 SPECS = {
     "C01": props_resource.C01,
     "C02": props_resource.C02,
@@ -9,5 +10,9 @@ SPECS = {
     "C04": props_ring.C04,
     "C09": props_ring.C09,
     "C14": props_array.C14,
+    "C05": props_subject.C05,
+    "C10": props_subject.C10,
 }
+# specs that can be run (./check) but are not claimed in MANIFEST.json yet
+IN_PROGRESS = {"C05", "C10"}
 NOT_CLAIMED = {}
